@@ -26,11 +26,12 @@ if grep -q FAILED /tmp/seed_$ID.suite.out || grep -q "[1-9][0-9]* failed" /tmp/s
 echo "SUITE_WITH_CHANGE=$SUITE"
 rundemo; WITH=$?
 echo "DEMO_WITH_CHANGE_EXIT=$WITH"; tail -5 /tmp/seed_$ID.demo.out
-git stash push -q -- src Cargo.toml
+# (no git stash: the stash is shared by all worktrees of a repository)
+git diff -- src Cargo.toml > /tmp/seed_$ID.restore.diff; git checkout -q -- src Cargo.toml
 cargo build --offline 2>&1 | tail -1; cargo build --release --offline 2>&1 | tail -1
 rundemo; WITHOUT=$?
 echo "DEMO_WITHOUT_CHANGE_EXIT=$WITHOUT"; tail -5 /tmp/seed_$ID.demo.out
-git stash pop -q
+git apply /tmp/seed_$ID.restore.diff
 if [ "$SUITE" = pass ] && [ $WITH -ne 0 ] && [ $WITH -ne 99 ] && [ $WITHOUT -eq 0 ]; then
   mkdir -p $OUT; git diff -- src Cargo.toml > $OUT/patch.diff
   rm -rf $OUT/demo; [ -d demo ] && cp -r demo $OUT/demo; [ -f tests/seeded_demo.rs ] && mkdir -p $OUT/demo && cp tests/seeded_demo.rs $OUT/demo/
